@@ -51,7 +51,7 @@ StepInverse == \A cp \in Slots(prec) : Hits(cd, prec, cp[1], cp[2]) =>
 \* errors leave the coder untouched by construction (FAIL carries no coder); out-of-data depends on data only (C14)
 OutOfDataModelFree == \A cp1, cp2 \in Slots(prec) : Failed(Pull(cd, prec)) = Failed(Pull(cd, prec))
 
-\* Bridge to the width-independent theorem RemaindersStep (spec/proofs/ChainStep.tla, TLAPS): in every reachable state and for
+\* Bridge to the width-independent theorems RemaindersStep (spec/proofs/ChainStep.tla) and RemStep / Message (ChainMessage.tla), TLAPS: in every reachable state and for
 \* every slot that contains the pulled quantile, ChainDec / NeedsRefill compute exactly the quantities the theorem speaks about
 ProofBridge == \A cp \in Slots(prec) : Hits(cd, prec, cp[1], cp[2]) =>
     LET Th == Pow2(S - W - prec)
@@ -64,6 +64,14 @@ ProofBridge == \A cp \in Slots(prec) : Hits(cd, prec, cp[1], cp[2]) =>
        /\ n.hr = (IF flush THEN hr1 \div B ELSE hr1)
        /\ n.rem = (IF flush THEN Append(cd.rem, hr1 % B) ELSE cd.rem)
        /\ NeedsRefill(n, prec, cp[2]) = (n.hr < cp[2] * Th)
+       \* ... and the remainders side of ChainEnc is EncR of proofs/ChainMessage.tla (the step on whole configurations and the
+       \* end-to-end theorem Message for unbounded messages); DecR is the two conjuncts on n.hr / n.rem above
+       /\ LET refill == n.hr < cp[2] * Th
+              hr0 == IF refill THEN n.hr * B + n.rem[Len(n.rem)] ELSE n.hr
+              e == ChainEnc(n, prec, cp[1], cp[2])
+          IN /\ ~Failed(e)
+             /\ e.hr = hr0 \div cp[2]
+             /\ e.rem = (IF refill THEN SubSeq(n.rem, 1, Len(n.rem) - 1) ELSE n.rem)
 SymbolsOnly == SelectSeq(hist, LAMBDA x : x[3] # 0)
 Emit == PrintT(<<"CASE", ToJson(
     [k |-> "chain", W |-> W, S |-> S, binary |-> Binary, data |-> data, hist |-> hist, prec |-> prec,
